@@ -3,6 +3,6 @@
 export PATH=/opt/veriftools/go1.26.8/bin:$PATH GOTOOLCHAIN=local GOFLAGS=-mod=mod GOPROXY=off GOWORK=off
 p="$1"; shift
 [ -d "$p" ] && p="$p/patch.diff"
-if [ -d /tmp/rf ]; then git -C /tmp/rf checkout -q -- . && git -C /tmp/rf clean -fdq; else git -C /repo worktree add -q --detach /tmp/rf HEAD; fi
+if [ -d /tmp/rf ]; then git -C /tmp/rf checkout -q -- . && git -C /tmp/rf clean -fdq && git -C /tmp/rf checkout -q --detach $(git -C /repo rev-parse HEAD); else git -C /repo worktree add -q --detach /tmp/rf HEAD; fi
 git -C /tmp/rf apply "$p" || exit 3
 /verif/bin/vuegocheck -no-evidence -repo /tmp/rf -verif /verif "$@"
